@@ -226,7 +226,7 @@ PROPS['C19'] = dict(
     quick=dict(cases=450, shards=16, scale=3, gates={'c19:truncated_file': 100, 'c19:empty_file': 30, 'c19:repeated_key': 300, 'c19:zero_weight': 200,
                                                   'c19:castling_record': 100, 'c19:promotion_record': 50, 'c19:distribution_checked': 100, 'c19:heavy_key_book': 3}, min_nontrivial=500,
                fuzz_jobs=8, fuzz_runs=30000),
-    thorough=dict(cases=3000, shards=16, scale=3, min_nontrivial=20000, fuzz_jobs=16, fuzz_runs=1500000),
+    thorough=dict(cases=3000, shards=16, scale=3, min_nontrivial=20000, fuzz_jobs=16, fuzz_runs=700000),
 )
 
 SEARCH_NOTE = ('Searches run in-process (Search::go, stdout captured) on a 4,096-entry table (guarded hook) with a harness-owned node-visit callback: '
